@@ -337,7 +337,11 @@ sd_apply(const mc_op *op)
             uint8 v[16];
             fillval(v, d->size * tsize(nt), S.nops, nt);
             if (SDsetdimscale(sd_id(o), d->size, nt, v) == FAIL) {
-                mc_violation("dimscale:failed", "SDsetdimscale(%s) failed", SONAME[o]);
+                if (d->has_scale && d->scale_nt != nt)
+                    mc_violation("dimscale:failed@number-type-of-existing-scale-changed", "SDsetdimscale(%s) with number type %d failed on a dimension whose scale has type %d", SONAME[o],
+                                 (int)nt, (int)d->scale_nt);
+                else
+                    mc_violation("dimscale:failed", "SDsetdimscale(%s) failed", SONAME[o]);
                 return 1;
             }
             d->has_scale = 1, d->scale_nt = nt;
